@@ -90,7 +90,7 @@ SVariant ==
 SField ==
     /\ pc = "s_field" /\ todo > 0
     /\ \E c \in OKCfgs(DS(L)) :
-          L' = [L EXCEPT !.variants[Len(L.variants)].fields = Append(@, [cmp |-> c, ty |-> "w"])]
+          L' = [L EXCEPT !.variants[Len(L.variants)].fields = Append(@, [cmp |-> c, ty |-> "w", name |-> "f" \o ToString(Len(@))])]
     /\ todo' = todo - 1
     /\ pc' = IF todo = 1 THEN "s_variant" ELSE "s_field"
     /\ UNCHANGED <<pool, hist>>
